@@ -5,7 +5,7 @@ import (
 	"unsafe"
 )
 
-func chanKey[T any](ch <-chan T) uintptr { return *(*uintptr)(unsafe.Pointer(&ch)) }
+func chanKey[T any](ch <-chan T) uintptr  { return *(*uintptr)(unsafe.Pointer(&ch)) }
 func chanKeyS[T any](ch chan<- T) uintptr { return *(*uintptr)(unsafe.Pointer(&ch)) }
 
 // ChanKey exposes the scheduling key of a channel.
